@@ -85,6 +85,7 @@ type Engine struct {
 	poolPrivate              map[*Value]Value
 	syncMaps                 map[*Value]*MapV
 	solverAlt                string
+	strViews                 map[*Value]bool
 	fs                       map[string]*fsNode
 	fsTmpN                   int
 	par                      *parState
@@ -916,6 +917,9 @@ func (e *Engine) store(addr Value, v Value) {
 		}
 		if e.copyCells[a] {
 			panic(unsupported("store through a symbolic index"))
+		}
+		if len(e.strViews) > 0 {
+			e.checkStrView(a)
 		}
 		e.noteStore(a)
 		storeInto(a, v)
